@@ -10,6 +10,7 @@ Bounded stand-in (never counted as proved): join_chunks on token arrays for all 
 with <= 3 pieces per axis and many key orders; the full reader on generated directories (4 layouts x
 decompositions x ghost widths x overlapping restarts x levels x file orders), oracle = generator truth.
 """
+import os
 import ast
 import inspect
 import itertools
@@ -528,9 +529,74 @@ def native_dir_replay(o=None):
     return bool(bad), ('; '.join(bad[:4]) if bad else 'the first 8 generated directories read back exactly')
 
 
+def regrid_cases(seed=0):
+    """one output file whose iterations were written with DIFFERENT process decompositions (Carpet regrids / re-balances between
+    outputs): component numbers permuted, cut position moved, cut axis changed, number of pieces changed.  The real
+    read_ET_group_or_var must return, for every request (single and several iterations, any order), the stored interior data."""
+    import h5py
+    import aurel.reading as Rm
+    bad, n = [], 0
+    rng = np.random.default_rng(seed)
+    for g in (1, 2, 3):
+        N = (7, 6, 8)
+        T = tuple(q + 2 * g for q in N)
+        lo = (g, g, g)
+        hi = tuple(g + q for q in N)
+        # per iteration: list of (lo, hi) interior boxes in (x, y, z), in the order of their component number c
+        def cut(axis, at, flip=False):
+            a = (lo, tuple(at if k == axis else hi[k] for k in range(3)))
+            b = (tuple(at if k == axis else lo[k] for k in range(3)), hi)
+            return [b, a] if flip else [a, b]
+        layouts = {0: cut(0, g + 3), 8: cut(0, g + 4, flip=True), 16: cut(1, g + 2), 24: cut(2, g + 5, flip=True),
+                   32: [(lo, (g + 2, hi[1], hi[2])), ((g + 4, lo[1], lo[2]), hi), ((g + 2, lo[1], lo[2]), (g + 4, hi[1], hi[2]))]}
+        d = tempfile.mkdtemp(prefix='c11r_')
+        try:
+            fp = os.path.join(d, 'rho.xyz.h5')
+            truth, times = {}, {}
+            with h5py.File(fp, 'w') as f:
+                for it, boxes in layouts.items():
+                    G = rng.normal(size=T)
+                    truth[it], times[it] = G[g:-g, g:-g, g:-g], 0.25 * it
+                    for c_, (l_, h_) in enumerate(boxes):
+                        block = G[tuple(slice(a - g, b + g) for a, b in zip(l_, h_))]
+                        ds = f.create_dataset(f'HYDROBASE::rho it={it} tl=0 rl=0 c={c_}', data=np.transpose(block, (2, 1, 0)))
+                        ds.attrs['cctk_nghostzones'] = np.array([g, g, g], dtype=np.int32)
+                        ds.attrs['iorigin'] = np.array([a - g for a in l_], dtype=np.int32)
+                        ds.attrs['time'] = times[it]
+            for its in ([0], [8], [32], [0, 8], [8, 16], [16, 24], [0, 8, 16, 24, 32], [24, 32], [0, 32]):
+                n += 1
+                try:
+                    out = Rm.read_ET_group_or_var(['rho'], [fp], 'in file', it=list(its), rl=0)
+                except Exception as e:
+                    bad.append(f'ghost width {g}, request it={its} on a file whose iterations have different decompositions: raised {type(e).__name__}: {str(e)[:100]}')
+                    continue
+                vals = out.get('rho0', [])
+                for i, it in enumerate(its):
+                    got = np.asarray(vals[i]) if i < len(vals) else None
+                    if got is None or got.shape != truth[it].shape or not np.array_equal(got, truth[it]):
+                        bad.append(f'ghost width {g}, request it={its}: the entry for it={it} is not the stored interior data '
+                                   f'(shape {None if got is None else got.shape} vs {truth[it].shape})')
+                if [float(t_) for t_ in out.get('t', [])] != [times[it] for it in its]:
+                    bad.append(f'ghost width {g}, request it={its}: times {list(out.get("t", []))}')
+        finally:
+            shutil.rmtree(d, ignore_errors=True)
+    return bad, n
+
+
+def regrid_obligation(R):
+    t0 = time.time()
+    bad, n = regrid_cases()
+    R.bounded.append(dict(function='aurel.reading.read_ET_group_or_var (decomposition changing between iterations of one file)',
+                          bound=f'{n} requests: 3 ghost widths x 5 iterations with different cuts / component numbering / piece counts x 9 request sets'))
+    R.ob('reading.read_ET_group_or_var:every dataset is placed at its own origin -- a file whose iterations have different decompositions is read back exactly',
+         'read_ET_group_or_var', 'refuted' if bad else ('bounded-ok' if n else 'undecided'), 'bounded-native', time.time() - t0, '; '.join(bad[:4]) or f'{n} requests', bad[:6] or None,
+         bounded=f'{n} requests', replay=lambda o: (lambda b: (bool(b[0]), '; '.join(b[0][:4]) or 'every request exact'))(regrid_cases()))
+
+
 def run(R):
     from engine.canary import run_canaries
     run_canaries(R, ('symx',))
+    regrid_obligation(R)
     R.assume('A2', 'A4', 'A6')
     R.trust('h5py / os / glob as file-system contracts (A4); key and file-name parsing as decided in C18')
     fixij_obligations(R)
